@@ -595,16 +595,69 @@ def rebase(snapshot, ghost_before, current):
                     if ren.get(str(x), str(y)) != str(y): bad.add(str(x))
                     ren[str(x)] = str(y)
     cur_set = set(strs(current)); snap_set = set(strs(snapshot))
-    ren = {x: y for x, y in ren.items() if x not in bad and x not in cur_set and y not in snap_set}
-    if ren: ghost_before = [[Tok(ren.get(str(t), str(t))) for t in run] for run in ghost_before]
+    cand = {x: y for x, y in ren.items() if x not in bad and y not in snap_set}
+    cur_vars = set(t for i_, t in enumerate(strs(current)) if not (i_ > 0 and strs(current)[i_ - 1] == '.'))
+    ren = {x: y for x, y in cand.items() if x not in cur_vars}
+    if ren: ghost_before = [[Tok(ren[str(t)] if (str(t) in ren and not (i_ > 0 and str(run[i_ - 1]) == '.')) else str(t)) for i_, t in enumerate(run)] for run in ghost_before]
+    # a name that was renamed in one scope only (e.g. the index of one of two loops that both use `i`): rename the ghost text
+    # from the first renamed occurrence to the end of the block enclosing the last one
+    sa_ = strs(snapshot)
+    for x, y in cand.items():
+        if x in ren: continue
+        pos = [a0 + k for tag, a0, a1, b0, b1 in sm.get_opcodes() if tag == 'replace' and a1 - a0 == b1 - b0 for k in range(a1 - a0) if sa_[a0 + k] == x]
+        if not pos: continue
+        lo, hi = min(pos), max(pos)
+        # every occurrence of x inside [lo, hi] must have been renamed
+        if any(sa_[k] == x and k not in pos and not (k > 0 and sa_[k - 1] == '.') for k in range(lo, hi + 1)): continue
+        d = 0; end = hi
+        for k in range(hi, len(sa_)):
+            if sa_[k] == '{': d += 1
+            elif sa_[k] == '}':
+                if d == 0: end = k; break
+                d -= 1
+        if any(sa_[k] == x and not (k > 0 and sa_[k - 1] == '.') for k in range(hi + 1, end + 1)): continue
+        for k in range(lo, min(end + 1, len(ghost_before))):
+            run_ = ghost_before[k]
+            ghost_before[k] = [Tok(y if (str(t) == x and not (i_ > 0 and str(run_[i_ - 1]) == '.')) else str(t)) for i_, t in enumerate(run_)]
+    ops = sm.get_opcodes()
+    # moved blocks (e.g. the two branches of a flipped if/else, a hoisted statement): a run of >= 5 tokens that was deleted in one
+    # place and inserted verbatim in another keeps its ghost runs
+    del_idx = [k for tag, a0, a1, b0, b1 in ops if tag in ('delete', 'replace') for k in range(a0, a1)]
+    ins_idx = [k for tag, a0, a1, b0, b1 in ops if tag in ('insert', 'replace') for k in range(b0, b1)]
+    moved = {}; taken_a = set()
+    sa, sb = strs(snapshot), strs(current)
+    if del_idx and ins_idx:
+        for mb in difflib.SequenceMatcher(a=[sa[k] for k in del_idx], b=[sb[k] for k in ins_idx], autojunk=False).get_matching_blocks():
+            if mb.size >= 5:
+                for k in range(mb.size):
+                    moved[ins_idx[mb.b + k]] = del_idx[mb.a + k]; taken_a.add(del_idx[mb.a + k])
+    # a moved `{` carries its matching `}` (and the ghost run in front of it, typically the proof at the end of the block) with it,
+    # whatever the flat alignment did with the closing braces
+    for bi, ai in list(moved.items()):
+        if sb[bi] == '{' and sa[ai] == '{':
+            try: cb, ca = match_close(sb, bi), match_close(sa, ai)
+            except ValueError: continue
+            if moved.get(cb) != ca:
+                prev = moved.get(cb)
+                if prev is not None: taken_a.discard(prev)
+                # another new token may already hold `ca`: release it
+                for k_, v_ in list(moved.items()):
+                    if v_ == ca and k_ != cb: del moved[k_]
+                moved[cb] = ca; taken_a.add(ca)
     toks = []; pending = []; edits = []
-    for tag, a0, a1, b0, b1 in sm.get_opcodes():
+    for tag, a0, a1, b0, b1 in ops:
         if tag == 'equal':
-            for k in range(a1 - a0): toks += pending + ghost_before[a0 + k] + [current[b0 + k]]; pending = []
+            for k in range(a1 - a0):
+                if (b0 + k) in moved: toks += pending + ghost_before[moved[b0 + k]] + [current[b0 + k]]
+                else: toks += pending + (ghost_before[a0 + k] if (a0 + k) not in taken_a else []) + [current[b0 + k]]
+                pending = []
         else:
             edits.append({'op': tag, 'was': ' '.join(snapshot[a0:a1]), 'now': ' '.join(current[b0:b1]),
                           'line': next((t.line for t in current[b0:b1] if getattr(t, 'line', None)), None)})
-            for k in range(a0, a1): pending += ghost_before[k]
-            toks += current[b0:b1]
+            for k in range(a0, a1):
+                if k not in taken_a: pending += ghost_before[k]
+            for bi in range(b0, b1):
+                if bi in moved: toks += ghost_before[moved[bi]]
+                toks.append(current[bi])
     toks += pending + ghost_before[len(snapshot)]
     return toks, len(edits), edits
